@@ -111,7 +111,10 @@ std::string check(const std::string &what, const Bytes &input, Class cls, size_t
         static uint64_t nChecks = 0;
         ++nChecks;
         const unsigned sh = V::S().ctx.shard;
-        if ((cls == WellFormed && nChecks % (sh % 2 ? 977 : 3001) == 5) || (cls != WellFormed && (nChecks + sh) % 7 == 0))
+        const bool isV2 = what.compare(0, 3, "v2 ") == 0;
+        // written-out samples: shard 0 shows v1 headers, shard 1 malformed inputs, the others v2 headers (the merged report keeps two per shard)
+        if ((sh == 0 && cls == WellFormed && !isV2 && nChecks % 977 == 5) || (sh >= 2 && cls == WellFormed && isV2 && nChecks % 1499 == sh) ||
+                (sh == 1 && cls != WellFormed && nChecks % 5 == 0))
             V::sample(what + (cls == WellFormed ? " [well-formed, " + std::to_string(input.size()) + " octets, every prefix tried]" : " [" + malformedClass + "]") + " => " + full.str());
     }
     if (cls == WellFormed) {
